@@ -539,14 +539,64 @@ def core_run(R, exe, cfg, mods, env, D, budget, walks, L, seed, maxpay=1, worker
     return e1e2(R, "CoreMC.tla", cfg, tag, core_canon(mods, maxpay, nkeys), exe, e, D, budget, walks, L, seed, workers=workers, timeout=timeout)
 
 
+def core_sim(R, exe, name, num, depth, seed, workers=8, timeout=1500):
+    """Configurations too large to enumerate: TLC's simulation mode samples behaviours of Core.tla (monitors checked on every sampled
+    state), each sampled behaviour is replayed into the real code and completed to a clean state where the sampled graph has a way."""
+    import glob
+    mods, env = CORE_CFGS[name]
+    cfg = "Core_mc_%s.cfg" % name
+    tag = "Core_mc_%s.sim" % name
+    d = vplib.rundir("sim." + tag)
+    res = vplib.tlc("CoreMC.tla", cfg, workers=workers, simulate=max(1, num // workers), depth=depth, timeout=timeout, seed=seed,
+                    metadir=os.path.join(d, "md"), simfile=os.path.join(d, "t"))
+    m = re.search(r"(\d+) states checked, (\d+) traces generated", res["out"])
+    res["generated"] = int(m.group(1)) if m else 0
+    res["distinct"] = 0
+    if res["rc"] == 124:
+        raise Broken("TLC simulation timeout: " + tag)
+    if res["violated"]:
+        rp = vplib.replay_path(R.prop, tag + ".tlc")
+        open(rp, "w").write(res["out"][-20000:])
+        R.add_tlc(res, tag)
+        R.mismatch(tag + ":model-" + res["violated"], rp, "TLC (simulation): %s violated" % res["violated"])
+        vplib.cleanup(d)
+        return None
+    if res["rc"] != 0:
+        raise Broken("TLC simulation failed (%s) rc=%s:\n%s" % (tag, res["rc"], res["out"][-3000:]))
+    states, edges, inits, progs = vplib.parse_sim_traces(sorted(glob.glob(os.path.join(d, "t_*"))))
+    res["distinct"] = len(states)
+    R.add_tlc(res, tag)
+    mp = int(env.get("VP_MAXPAY", "1"))
+    table = os.path.join(d, "graph.tab")
+    vplib.write_table(table, states, edges, inits, core_canon(mods, mp, int(env.get("VP_NKEYS", "1"))))
+    pf = os.path.join(d, "progs.txt")
+    with open(pf, "w") as f:
+        for p in progs:
+            # a sampled behaviour may stop inside a callback: keep its longest prefix that ends at the top level
+            while p and states[p[-1][1]]["S"]["stack"]:
+                p.pop()
+            if p:
+                f.write("\n".join(lab for lab, _ in p) + "\n--\n")
+    e = {"VP_MODS": ",".join(mods), "VP_MAXPAY": str(mp), "GW_FORK": "1", "GW_PROGS": pf, "GW_WALL_S": str(int(timeout * 0.7))}
+    e.update(env)
+    rdir = os.path.join(vplib.VERIF, "replays")
+    os.makedirs(rdir, exist_ok=True)
+    R.exhaustive = False
+    stats = run_driver(R, exe, [table, rdir, R.prop + "." + tag, 0, 0, 0, 0, seed], e, timeout, tag)
+    vplib.cleanup(d)
+    return stats
+
+
 CORE_CFGS = {
+    "mixb": (["A", "B"], {"VP_HOOKS": "A:esx,B:x", "VP_FLAGS": "A:RP/-,B:CUS", "VP_CAP": "2", "VP_MAXPAY": "2"}),
+    "mix": (["A", "B", "C"], {"VP_HOOKS": "A:esx,B:x", "VP_CAP": "2", "VP_CTXPERSIST": "1", "VP_SETUP": "loop3", "VP_MAXPAY": "3", "VP_NKEYS": "1", "VP_TASKS": "1"}),
     # name: (modules, env)
     "life": (["A", "B"], {"VP_HOOKS": "A:esx,B:x", "VP_CAP": "2"}),
     "ctx": (["A", "B"], {"VP_HOOKS": "A:x,B:e", "VP_CAP": "2"}),
     "ctxc": (["A", "B"], {"VP_HOOKS": "A:x,B:e", "VP_CAP": "2", "VP_NAMES": "db,fs"}),
     "lifec": (["A", "B"], {"VP_HOOKS": "A:esx,B:x", "VP_CAP": "2", "VP_NAMES": "db,fs"}),
     "ctxp": (["A", "B"], {"VP_HOOKS": "A:x,B:e", "VP_CAP": "2", "VP_CTXPERSIST": "1"}),
-    "perm": (["A", "B"], {"VP_HOOKS": "A:s,B:sx", "VP_FLAGS": "A:RP/-,B:CUS", "VP_CAP": "2"}),
+    "perm": (["A", "B"], {"VP_HOOKS": "A:sx,B:sx", "VP_FLAGS": "A:RP/-,B:CUS", "VP_CAP": "2"}),
     "ps2q": (["A", "B"], {"VP_CAP": "2", "VP_CTXPERSIST": "1", "VP_SETUP": "loop2", "VP_MAXPAY": "2"}),
     "ps2": (["A", "B"], {"VP_CAP": "2", "VP_CTXPERSIST": "1", "VP_SETUP": "loop2", "VP_MAXPAY": "2"}),
     "pub2": (["A", "B"], {"VP_CAP": "2", "VP_CTXPERSIST": "1", "VP_SETUP": "loop2"}),
@@ -579,7 +629,7 @@ CORE_CFGS = {
 }
 
 
-def core_check(prop, tier, seed, quick_cfgs, thorough_cfgs, rule, Dq=5, Dt=7, budget_q=60000, budget_t=4000000, loop_cfgs=(), col_cfgs=()):
+def core_check(prop, tier, seed, quick_cfgs, thorough_cfgs, rule, Dq=5, Dt=7, budget_q=60000, budget_t=4000000, loop_cfgs=(), col_cfgs=(), sim_cfgs=()):
     R = Result(prop, tier, seed)
     exe = build_core()
     quick = tier == "quick"
@@ -589,6 +639,7 @@ def core_check(prop, tier, seed, quick_cfgs, thorough_cfgs, rule, Dq=5, Dt=7, bu
         cfgs = [c for c in only if c in CORE_CFGS and not c.endswith(".loop")]
         loop_cfgs = [c[:-5] for c in only if c.endswith(".loop")]
         col_cfgs = [c[:-4] for c in only if c.endswith(".col")]
+        sim_cfgs = [c[:-4] for c in only if c.endswith(".sim")]
         cfgs = [c for c in cfgs if not c.endswith(".col")]
     tasks = []
     for name in cfgs:
@@ -614,6 +665,8 @@ def core_check(prop, tier, seed, quick_cfgs, thorough_cfgs, rule, Dq=5, Dt=7, bu
         tasks.append(lambda name=name, mods=mods, env=env, mp=mp: core_run(
             R, exe, "Core_mc_%s.cfg" % name, mods, env, Dq if quick else Dt, (budget_q if quick else budget_t) // 2,
             1500 if quick else 100000, 40, seed, maxpay=mp, workers=2, suffix=".col"))
+    for name in sim_cfgs:
+        tasks.append(lambda name=name: core_sim(R, exe, name, 1600 if quick else 40000, 40 if quick else 60, seed, workers=4))
     vplib.parallel(tasks, max_workers=4)
     R.rule = ("programs = paths of the dumped TLC graph of Core.tla (configs: %s) whose edges are public API calls made from the top "
               "level or from inside callbacks and callback returns; every program is completed to a clean state (context released, "
@@ -715,7 +768,10 @@ def c04(prop, tier, seed):
                       "program retains events beyond their invocation (and beyond the stop / deregistration of their module and the release of "
                       "the context) and extra references on module objects (zombies), releasing them in any order; retained events are re-read "
                       "after every step; tasks whose thread is still inside the user's function when their module is paused, stopped, deregistered "
-                      "or the loop stops (the function returns only when the library waits for it, or afterwards if it does not wait).", Dq=5, Dt=6)
+                      "or the loop stops (the function returns only when the library waits for it, or afterwards if it does not wait)."
+                      " Configurations marked .sim are too large to enumerate: TLC's simulation mode samples behaviours (all features at once: 3 modules "
+                      "with hooks, priorities, batching, stash, become, token bucket, descriptor / timer / signal / task sources, tick, retained events), "
+                      "the monitors are checked on every sampled state and every sampled behaviour is replayed.", Dq=5, Dt=6, sim_cfgs=["mix", "mixb"])
 
 
 # ------------------------------------------------------------------------------------------
